@@ -528,6 +528,24 @@ def query_systematic():
         for st in ("SELECT 1", "WITH w AS (SELECT 1) SELECT * FROM w", "(SELECT 1)", "FROM t |> SELECT *", "FROM t", "INSERT INTO t (a) VALUES (1)",
                    "UPDATE t SET a = 1 WHERE TRUE", "DELETE FROM t WHERE TRUE"):
             out.append(hint + st)
+    for quant in ("", "ALL ", "DISTINCT "):
+        for as_ in ("", "AS STRUCT ", "AS VALUE ", "AS pkg.Message "):
+            out.append("SELECT %s%sa FROM t" % (quant, as_))
+            out.append("SELECT ARRAY(SELECT %s%sx FROM UNNEST(xs) AS x)" % (quant, as_))
+            out.append("FROM t |> SELECT %s%sa" % (quant, as_))
+    for item in ("t", "a.b.c", "(SELECT 1 AS x)", "UNNEST([1, 2])", "f(1)", "(a JOIN b ON TRUE)"):
+        for hint in ("", "@{FORCE_INDEX=i} "):
+            for alias in ("", " AS s", " s"):
+                for off in ("", " WITH OFFSET", " WITH OFFSET AS o"):
+                    for samp in ("", " TABLESAMPLE BERNOULLI (10 PERCENT)", " TABLESAMPLE RESERVOIR (5 ROWS)"):
+                        if off and not item.startswith("UNNEST"):
+                            continue
+                        if hint and not (item in ("t", "a.b.c") or item.startswith(("UNNEST", "f("))):
+                            continue
+                        if alias and item.startswith(("f(", "(a JOIN")):
+                            continue          # aliases on table-valued function calls and parenthesised joins: not implemented by memefish
+                        out.append("SELECT * FROM %s %s%s%s%s" % (item, hint, alias.strip() and alias or "", off, samp))
+                        out.append("SELECT * FROM %s %s%s%s%s JOIN u ON TRUE" % (item, hint, alias.strip() and alias or "", off, samp))
     for o in ("", " ASC", " DESC"):
         for c in ("", " COLLATE \"und:ci\""):
             out.append("SELECT a FROM t ORDER BY a%s%s, b%s" % (c, o, o))
@@ -634,6 +652,10 @@ def clause_permutations():
     for perm in itertools.permutations(dml, 2):
         out.append(("ParseDML", ("UPDATE t SET a = 2" + "".join(perm)).encode()))
         out.append(("ParseDML", ("DELETE FROM t" + "".join(perm)).encode()))
+    pb = [" INSERT (a.B)", " UPDATE (c.D)", " DELETE (e.F)"]
+    for k in (2, 3):
+        for perm in itertools.permutations(pb, k):
+            out.append(("ParseDDL", ("ALTER PROTO BUNDLE" + "".join(perm)).encode()))
     cs = [" FOR ALL", " OPTIONS (r = '1d')"]
     for perm in itertools.permutations(cs, 2):
         out.append(("ParseDDL", ("CREATE CHANGE STREAM s" + "".join(perm)).encode()))
@@ -654,10 +676,23 @@ TRAILING_COMMA = [("ParseExpr", "f(1, )"), ("ParseExpr", "f(x => 1, )"), ("Parse
                   ("ParseDDL", "ALTER TABLE t ADD FOREIGN KEY (a, ) REFERENCES p (b, )"), ("ParseType", "STRUCT<a INT64, >"), ("ParseType", "STRUCT<INT64, STRING, >")]
 
 
+def keyword_field_cases():
+    """every reserved keyword as a back-quoted field name after bases that do and do not put the lexer into field mode"""
+    out = []
+    bases = ["x", "(x)", "f(x)", "a[0]", "@p", "'s'", "1.5", "CASE WHEN a THEN b END", "JSON '{}'", "[1][OFFSET(0)]", "STRUCT(1 AS a)", "(SELECT AS STRUCT 1 AS a)"]
+    for kw in gen_keywords():
+        for b_ in bases:
+            out.append(("ParseExpr", ("%s.`%s`" % (b_, kw.lower())).encode()))
+        out.append(("ParseExpr", ("NEW U {%s: {b: 1}}" % "f").encode()))
+    out += [("ParseExpr", b"NEW Universe {name: \"Sol\", star: {radius_miles: 432690}}"), ("ParseExpr", b"NEW U {a: {b: {c: 1}}}"), ("ParseExpr", b"NEW U {a: {}}"),
+            ("ParseExpr", b"NEW U {a {b: 1}, c: [{d: 2}], e: ({f: 3})}"), ("ParseQuery", b"SELECT NEW U {a: {b: 1}} AS u")]
+    return out
+
+
 def probe_cases():
     """seed-independent inputs that are NOT all sentences of the reference grammar (many are rejected): they probe the oracles that
     apply to whatever is accepted (round trip, positions, traversal ...), never the acceptance property C08"""
-    return literal_systematic() + pseudo_keyword_cases() + [("ParseExpr", x) for x in NUMERIC_POSTFIX] + clause_permutations() + [(e, x.encode()) for (e, x) in TRAILING_COMMA]
+    return literal_systematic() + pseudo_keyword_cases() + [("ParseExpr", x) for x in NUMERIC_POSTFIX] + clause_permutations() + [(e, x.encode()) for (e, x) in TRAILING_COMMA] + keyword_field_cases()
 
 
 def systematic_cases(valid_only=True):
@@ -997,6 +1032,9 @@ INJECT_BASE = [
     ("ParseStatement", "GRANT SELECT ( a , b ) , INSERT ON TABLE t , u TO ROLE r1 , r2"),
     ("ParseStatement", "CREATE SEQUENCE s BIT_REVERSED_POSITIVE SKIP RANGE 1 , 2 START COUNTER WITH 3 OPTIONS ( o = 1 )"),
     ("ParseStatement", "CALL p ( 1 , ( SELECT 2 ) )"),
+    ("ParseStatement", "SELECT NEW pkg . T { a : 1 , b : { c : 2 } d : [ 3 ] } , STRUCT < a INT64 , b STRING > ( 1 , 'x' ) + 1"),
+    ("ParseStatement", "INSERT INTO t ( a ) VALUES ( NEW pkg . T { a : 1 b : 2 } )"),
+    ("ParseQuery", "SELECT * , t . * , * EXCEPT ( a ) , s . * REPLACE ( 1 AS b ) FROM t"),
     ("ParseType", "STRUCT < a ARRAY < STRUCT < b INT64 , c x . y > > , d STRING >"),
     ("ParseQuery", "SELECT ( ( SELECT 1 ) ) , x IN ( ( SELECT 2 ) ) FROM ( ( SELECT 3 ) ) WHERE y = ( ( ( SELECT 4 ) ) )"),
     ("ParseStatement", "DELETE FROM t WHERE a = ( ( SELECT 1 UNION ALL SELECT 2 ) )"),
@@ -1034,6 +1072,34 @@ def injection_cases(rnd, quick):
             first = BAD_PARSE[(i + j) % len(BAD_PARSE)] if word.match(toks[i]) else b""
             t2 = toks[:i] + ([first] if first else []) + toks[i + 1:j] + [BAD_LEX[(i * 7 + j) % len(BAD_LEX)]] + toks[j + 1:]
             out.append((e, b" ".join(t2)))
+    return out
+
+
+def semicolon_insertions():
+    """a ';' token at every position of the base sentences (a production that swallows a ';' makes the list entry point disagree with the
+    raw-statement split), and trailing-comma forms followed by ';'"""
+    out = []
+    for (e, b_) in INJECT_BASE:
+        if e not in ("ParseStatement", "ParseQuery"):
+            continue
+        toks = b_.encode().split(b" ")
+        dml = toks[0].upper() in (b"INSERT", b"UPDATE", b"DELETE")
+        for i in range(1, len(toks)):
+            s_ = b" ".join(toks[:i] + [b";"] + toks[i:])
+            out.append(("ParseStatements", s_))
+            if dml:
+                out.append(("ParseDMLs", s_))
+    for (e, x) in TRAILING_COMMA:
+        if e in ("ParseQuery", "ParseDML"):
+            out.append(("ParseStatements", x.encode() + b"; SELECT 1"))
+            out.append(("ParseStatements", x.encode() + b" /* c */ ;"))
+            if e == "ParseDML":
+                out.append(("ParseDMLs", x.encode() + b"; DELETE FROM t WHERE TRUE"))
+    for ret in (b"THEN RETURN a,", b"THEN RETURN a, b,", b"THEN RETURN WITH ACTION AS act a,", b"THEN RETURN *,"):
+        for st in (b"DELETE FROM t WHERE TRUE ", b"UPDATE t SET a = 1 WHERE TRUE ", b"INSERT INTO t (a) VALUES (1) "):
+            out.append(("ParseDMLs", st + ret + b"; DELETE FROM t WHERE TRUE"))
+            out.append(("ParseStatements", st + ret + b";"))
+            out.append(("ParseStatements", st + ret))
     return out
 
 
